@@ -1,0 +1,9 @@
+//go:build !verif
+
+package core
+
+import "github.com/bluenviron/mediamtx/internal/conf"
+
+func verifOnReloadConfEnter(*path, *conf.Path) {}
+
+func verifOnReloadConfExit(*path, *conf.Path) {}
